@@ -37,6 +37,7 @@ def run(ctx):
     ctx.rule(axes)
     ctx.rule(stack)
     ctx.rule(stack_layout)
+    ctx.rule(stateless)
 
 
 def _m(prog, cls, name):
@@ -343,3 +344,11 @@ def stack_layout(ctx, R="R-C15-stack-layout"):
                             % (cfg, show(res.axes), show(want)), "every element of the stacked result comes from the right input element")
     ctx.floor(R, n_cfg, 100)
     ctx.ok(R, f.loc(), "%d (rank, time axis, feature axis, in_place) combinations: the result is [.., run, .., (pos, coeff), ..] in every one" % n_cfg)
+
+
+def stateless(ctx, R="R-C15-stateless"):
+    """Deltas.apply / Stack.apply are functions of (configuration, input, axis): nothing is remembered between calls"""
+    from .c20 import no_shared_state
+    for cname in ("Deltas", "Stack"):
+        f = _m(ctx.prog, cname, "apply")
+        no_shared_state(ctx, R, f, "%s.apply" % cname)
